@@ -523,6 +523,8 @@ impl<S> Env<S> {
                 self.jobs.update_status(pid, state);
                 return Ok((pid, state));
             }
+            #[cfg(feature = "verif-hooks")]
+            system::r#virtual::sim_hook::preempt_point_current("wait_for_subshell").await;
             self.wait_for_signal(S::SIGCHLD).await;
         }
     }
